@@ -5,14 +5,24 @@ From TT Require Import Lib.Base Model.Tfr Model.Concur Spec.C12 Spec.C13 Corr.C1
 (* ====================================================================================== *)
 (* 1. the comparison functions decide equality                                              *)
 (* ====================================================================================== *)
+Lemma tstamp_eqb_spec a b : tstamp_eqb a b = true <-> a = b.
+Proof.
+  destruct a, b; simpl; split; intro H; try discriminate; try reflexivity.
+  - apply Nat.eqb_eq in H. subst. reflexivity.
+  - injection H as ->. apply Nat.eqb_refl.
+Qed.
+
 Lemma qitem_eqb_spec a b : qitem_eqb a b = true <-> a = b.
 Proof.
-  destruct a as [x|x|x|w i s o], b as [y|y|y|w' i' s' o']; simpl; split; intro H; try discriminate.
+  destruct a as [x|x|x|w i s o t], b as [y|y|y|w' i' s' o' t']; simpl; split; intro H; try discriminate.
   all: try (apply Nat.eqb_eq in H; subst; reflexivity).
   all: try (injection H as ->; apply Nat.eqb_refl).
-  - apply andb_true_iff in H as [H H4]. apply andb_true_iff in H as [H H3]. apply andb_true_iff in H as [H1 H2].
-    apply Nat.eqb_eq in H1, H2, H3. apply (option_eqb_spec _ Nat.eqb_eq) in H4. subst. reflexivity.
-  - injection H as -> -> -> ->. rewrite !Nat.eqb_refl. simpl. apply (option_eqb_spec _ Nat.eqb_eq). reflexivity.
+  - apply andb_true_iff in H as [H H5]. apply andb_true_iff in H as [H H4]. apply andb_true_iff in H as [H H3].
+    apply andb_true_iff in H as [H1 H2].
+    apply Nat.eqb_eq in H1, H2, H3. apply (option_eqb_spec _ Nat.eqb_eq) in H4. apply tstamp_eqb_spec in H5.
+    subst. reflexivity.
+  - injection H as -> -> -> -> ->. rewrite !Nat.eqb_refl. simpl.
+    rewrite (proj2 (option_eqb_spec _ Nat.eqb_eq _ _) eq_refl). apply tstamp_eqb_spec. reflexivity.
 Qed.
 
 Lemma cev_eqb_spec a b : cev_eqb a b = true <-> a = b.
@@ -27,10 +37,10 @@ Proof.
   - apply andb_true_iff in H as [H H6]. apply andb_true_iff in H as [H H5]. apply andb_true_iff in H as [H H4].
     apply andb_true_iff in H as [H H3]. apply andb_true_iff in H as [H1 H2].
     apply Nat.eqb_eq in H1, H2, H3. apply (option_eqb_spec _ Nat.eqb_eq) in H4.
-    apply (proj1 (bool_eqb_spec _ _)) in H5. apply (proj1 (bool_eqb_spec _ _)) in H6. subst. reflexivity.
+    apply tstamp_eqb_spec in H5. apply (proj1 (bool_eqb_spec _ _)) in H6. subst. reflexivity.
   - injection H as -> -> -> -> -> ->. rewrite !Nat.eqb_refl. simpl.
     rewrite (proj2 (option_eqb_spec _ Nat.eqb_eq _ _) eq_refl). simpl.
-    rewrite !(proj2 (bool_eqb_spec _ _) eq_refl). reflexivity.
+    rewrite (proj2 (tstamp_eqb_spec _ _) eq_refl), (proj2 (bool_eqb_spec _ _) eq_refl). reflexivity.
 Qed.
 
 Lemma tev_eqb_spec a b : tev_eqb a b = true <-> a = b.
@@ -66,9 +76,10 @@ Qed.
 
 Lemma ev3_eqb_sound a b : ev3_eqb a b = true -> a = b.
 Proof.
-  destruct a as [[a1 a2] a3], b as [[b1 b2] b3]. unfold ev3_eqb. simpl. intro H.
-  apply andb_true_iff in H as [H H3]. apply andb_true_iff in H as [H1 H2].
-  apply Nat.eqb_eq in H1, H2. apply (option_eqb_spec _ Nat.eqb_eq) in H3. subst. reflexivity.
+  destruct a as [[[a1 a2] a3] a4], b as [[[b1 b2] b3] b4]. unfold ev3_eqb. simpl. intro H.
+  apply andb_true_iff in H as [H H4]. apply andb_true_iff in H as [H H3]. apply andb_true_iff in H as [H1 H2].
+  apply Nat.eqb_eq in H1, H2. apply (option_eqb_spec _ Nat.eqb_eq) in H3. apply tstamp_eqb_spec in H4.
+  subst. reflexivity.
 Qed.
 
 Lemma nth_error_firstn_lt {A} (l : list A) : forall k w x, w < k -> nth_error l w = Some x -> nth_error (firstn k l) w = Some x.
@@ -254,18 +265,23 @@ Qed.
    emits, each event with w's route code and a timestamp; all of it when run() has returned normally *)
 Theorem stream_delivery i sched w s : let c := sreach i sched in
   nth_error (si_suites i) w = Some s -> w < length (s_workers c) ->
-  (forall x, In x (delivered w (s_log c)) -> snd (fst x) = true)
+  (forall x, In x (delivered w (s_log c)) -> has_ts (snd (fst x)) = true)
   /\ exists rest, map to3 (delivered w (s_log c)) ++ rest = ev_of (emits w (si_base i) s)
        /\ (s_main c = SMDone -> s_raised c = false -> rest = []).
 Proof.
   simpl. intros Hs Hw. pose proof (sreach_inv i sched) as HI. set (c := sreach i sched) in *.
   destruct (nth_error (s_workers c) w) as [todo|] eqn:En; [|apply nth_error_None in En; lia].
   destruct (sv_workers i c HI w todo En) as (s' & Hs' & E). rewrite Hs in Hs'. injection Hs' as <-.
+  assert (Hrest : map to3 (delivered w (s_log c))
+                  ++ (ev_of (fw w (pend_status c)) ++ ev_of (fw w (s_queue c)) ++ ev_of todo)
+                  = ev_of (emits w (si_base i) s)).
+  { rewrite app_assoc, (sv_deliv i c HI w), <- ev_of_worker_puts, <- E, ev_of_app, <- (sv_fifo i c HI w), fw_app,
+      ev_of_app, <- app_assoc. reflexivity. }
   split.
-  - intros x Hx. pose proof (sv_ts i c HI w) as Ht. rewrite forallb_forall in Ht. apply Ht. exact Hx.
+  - intros x Hx. pose proof (prefix_has_ts _ _ _ Hrest (emits_has_ts w (si_base i) s)) as Ht.
+    rewrite forallb_forall in Ht. apply Ht. exact Hx.
   - exists (ev_of (fw w (pend_status c)) ++ ev_of (fw w (s_queue c)) ++ ev_of todo). split.
-    + rewrite app_assoc, (sv_deliv i c HI w), <- ev_of_worker_puts, <- E, ev_of_app, <- (sv_fifo i c HI w), fw_app,
-        ev_of_app, <- app_assoc. reflexivity.
+    + exact Hrest.
     + intros Em Hr. pose proof (sv_phase i c HI) as Hp. rewrite Em in Hp. destruct Hp as (_ & _ & _ & HwK & Hnr).
       destruct (Hnr Hr) as [_ Hun].
       pose proof (sv_joins i c HI) as Hjo. unfold pend_join in Hjo. rewrite Em in Hjo. simpl in Hjo. rewrite app_nil_r in Hjo.
@@ -283,10 +299,10 @@ Qed.
 (* ---- a broken runner (stream): what worker w puts on the queue when its run() raises ---- *)
 Theorem stream_broken_runner w pre rest : (forall x, In x pre -> x <> SRaise) ->
   emits w false (pre ++ SRaise :: rest)
-    = emits w false pre ++ [QStatus w br_id st_inprogress None; QStatus w br_id st_fail None]
+    = emits w false pre ++ [QStatus w br_id st_inprogress None TNow; QStatus w br_id st_fail None TNow]
   /\ emits w true (pre ++ SRaise :: rest) = emits w true pre.
 Proof.
-  induction pre as [|[id st own|] pre IH]; intro H; simpl.
+  induction pre as [|[id st own a|] pre IH]; intro H; simpl.
   - split; reflexivity.
   - destruct IH as [I1 I2]; [intros x Hx; apply H; right; exact Hx|]. rewrite I1, I2. split; reflexivity.
   - exfalso. apply (H SRaise); [left; reflexivity | reflexivity].
